@@ -171,6 +171,7 @@ def gen_entry(rng, strings, fault=None):
 def gen_trace(rng, strings, name=None, nentries=None, hostile=True):
     """one trace buffer (header + entries), possibly with a fault at the end"""
     nentries = rng.choice([0, 1, 2, 3, 5, 9]) if nentries is None else nentries
+    standalone = name is None
     name = name or rng.choice(im.BUFFER_NAMES + ["XYZ", "FANS    ", "fa\xffns"]).encode("latin-1")
     body = b"".join(gen_entry(rng, strings) for _ in range(nentries))
     tail = b""
@@ -199,8 +200,14 @@ def gen_trace(rng, strings, name=None, nentries=None, hostile=True):
         size = rng.choice([0, 31, 32, 33, total + 100, 0xFFFFFFFF])
     else:
         size = rng.randrange(0, total + 1)
+    hb = (0x20, 0x01, 0x42)
+    if standalone and rng.random() < 0.3:
+        # header length / time flag / endian flag are stored, not interpreted: a stand-alone buffer is decoded the same
+        # way whatever they hold (inside a dump the four start bytes are what makes a header recognisable, so there they stay)
+        hb = rng.choice([(0x40, 0x01, 0x42), (0x10, 0x01, 0x4C), (0, 0, 0), (0xFF, 0xFF, 0xFF), (0x1F, 0x01, 0x42), (0x21, 0x01, 0x42),
+                         (rng.randrange(256), rng.randrange(256), rng.randrange(256))])
     hdr = im.make_trace_header(name, size, ver=rng.choice([2] * 12 + [0, 255]), wrap=rng.choice([0, 1, rng.randrange(1 << 32)]),
-                               next_free=rng.randrange(1 << 32), res=rng.choice([0, 0xFFFFFFFF]))
+                               next_free=rng.randrange(1 << 32), hdr=hb, res=rng.choice([0, 0xFFFFFFFF]))
     return hdr + body + tail
 
 
